@@ -485,6 +485,10 @@ def to_model(data_file: typing.IO, _config = None, progress_callback=lambda _: N
         state = _State.LOOKING
         continue
 
+      if "-->" in line:
+        # the previous line was a cue identifier that looked like a block keyword
+        state = _State.LOOKING
+
     if state is _State.LOOKING:
       if line is None:
         break
